@@ -1145,3 +1145,110 @@ def rule_tywf(ctx):
     if n < 2:
         raise AnalysisError("R-TYWF: only %d checks against a supplied type found (let annotation, return type, argument lists expected)" % n)
     return res
+
+
+_ITER_STEPS = ("zip", "chain", "into_iter", "iter", "iter_mut", "enumerate", "rev", "skip", "take", "cloned", "copied", "peekable", "by_ref", "map",
+               "filter", "filter_map", "drain", "flat_map", "flatten", "into_keys", "into_values", "keys", "values", "deref", "deref_mut", "as_slice",
+               "as_mut_slice", "clone", "replace", "take_while", "skip_while", "inspect", "unwrap_or_default", "borrow", "borrow_mut", "as_ref", "as_mut")
+
+
+def _sequence_sources(fn, flow, local):
+    """the parameters (with field paths) a sequence or iterator held in `local` is drawn from, through the usual adaptor chain"""
+    out, work, seen = set(), [local], set()
+    while work:
+        l0 = work.pop()
+        if l0 is None or l0 in seen:
+            continue
+        seen.add(l0)
+        for o in flow.origins(l0, ()):
+            if o[0] == "arg":
+                out.add((o[1], tuple(o[2])))
+            elif o[0] == "call" and fn.term(o[1]).get("callee_name") in _ITER_STEPS:
+                work.extend(op_root(a) for a in fn.term(o[1])["args"])
+    return out
+
+
+def rule_keyed(ctx):
+    """R-KEYED: the typing rules never gather parts of the checked term into a keyed collection"""
+    fx = ctx.fx
+    res = RuleResult("R-KEYED", "no typing rule (a Check::check impl, its closures, check_args) gathers clauses, arguments or binders of the "
+                     "term it checks into a HashMap/BTreeMap/HashSet/BTreeSet by collect / from_iter / extend: a keyed collection merges "
+                     "entries with equal keys without a word, so a duplicated clause or binder vanishes before anything can reject it "
+                     "(duplicates are rejected by no_dups and by the leftover-clauses test over the original lists); in Case and New the "
+                     "checked clause list is built by a loop over the xtors of the declaration, not over the clauses as written "
+                     "(every later stage and the jump tables rely on declaration order)")
+    n = 0
+    for k, f in sorted(fx.fns.items()):
+        if f["crate"] != "fun" or "{promoted" in k:
+            continue
+        base = k.split("::{closure")[0]
+        g = fx.fns.get(base, f)
+        if not ((g.get("impl_trait") or "").endswith("typing::check::Check") and base.endswith("::check")) and not base.endswith("typing::check::check_args"):
+            continue
+        fn = Fn(f)
+        flow = Flow(fn)
+        n += 1
+        bad = None
+        for bi, t in fn.calls():
+            nm = t.get("callee_name")
+            if nm not in ("collect", "from_iter", "extend") or not t["args"]:
+                continue
+            dty = f["locals"][t["dest"]["l"]]["ty"] if t.get("dest") and not t["dest"]["p"] else ""
+            sty = (t.get("callee_self") or "") + " " + (t.get("callee_self_adt") or "")
+            keyed = any(x in dty for x in ("HashMap", "BTreeMap", "HashSet", "BTreeSet")) if nm != "extend" else any(x in sty for x in ("HashMap", "BTreeMap", "HashSet", "BTreeSet"))
+            if not keyed:
+                continue
+            src = _sequence_sources(fn, flow, op_root(t["args"][-1] if nm == "extend" else t["args"][0]))
+            # parameter 1 of check / the argument list of check_args (parameter 4): the term being checked; closures: anything captured
+            hit = [s for s in src if (s[0] == 1 and ("{closure" in k or base.endswith("::check"))) or (base.endswith("check_args") and s[0] == 4)]
+            if hit:
+                bad = (t, hit[0])
+        ikey = "%s:keyed" % k
+        if bad:
+            t, s = bad
+            res.inst(ikey, t["sp"]["file"], t["sp"]["line"], "violation")
+            res.violate(ikey, "%s gathers `%s` of the term it checks into a keyed collection (%s at line %d): entries with the same key are merged "
+                        "silently, so a duplicate in the program is never seen by the checks that follow" %
+                        (base.split(" as ")[0].lstrip("<").split("::")[-1], ".".join(s[1]) or "a part", t.get("callee_name"), t["sp"]["line"]), t["sp"]["file"], t["sp"]["line"])
+        else:
+            res.inst(ikey, fn.file, fn.line, "ok", nontrivial=False)
+    # clause order: the checked clause vector of Case / New
+    from .. import prov
+    n_ord = 0
+    for k, f in sorted(fx.fns.items()):
+        if f["crate"] != "fun" or "{" in k.split(">::")[-1] or not (f.get("impl_trait") or "").endswith("typing::check::Check") or not k.endswith("::check"):
+            continue
+        fn = Fn(f)
+        flow = None
+        for bi, si, s in fn.stmts():
+            if s["lhs"]["l"] != 1 or "clauses" not in place_fields(s["lhs"]) or s["rv"]["k"] not in ("use",):
+                continue
+            flow = flow or prov.make_flow(fn, fx, extra_names=())
+            pflow = Flow(fn)
+            roots = prov.collection_roots(fn, flow, s["rv"]["op"], fx=fx)
+            n_ord += 1
+            ikey = "%s:clause-order" % k
+            why = None
+            for r in roots:
+                body = r[1:] if r[0] == "loop" else r
+                if r[0] != "loop":
+                    why = "is not built by a loop (%s)" % (r[0],)
+                elif body[0] == "arg" and body[1] == 1:
+                    why = "is built by a loop over the node's own `%s`" % ".".join(body[2])
+                elif body[0] == "call":
+                    tc = fn.term(body[1])
+                    srcs = set()
+                    for a in tc["args"]:
+                        srcs |= _sequence_sources(fn, pflow, op_root(a))
+                    if any(s_[0] == 1 and "clauses" in s_[1] for s_ in srcs):
+                        why = "is built by a loop over the clauses as written (through %s)" % tc.get("callee_name")
+            if why:
+                res.inst(ikey, s["sp"]["file"], s["sp"]["line"], "violation")
+                res.violate(ikey, "%s: the checked clause list %s instead of over the xtors of the declaration: clauses written in another order than the "
+                            "declaration stay in that order, and the jump table built from them sends each tag to the wrong clause" %
+                            (k.split(" as ")[0].lstrip("<").split("::")[-1], why), s["sp"]["file"], s["sp"]["line"])
+            else:
+                res.inst(ikey, s["sp"]["file"], s["sp"]["line"], "ok", "loop over the declaration's xtor list")
+    if n < 15 or n_ord < 2:
+        raise AnalysisError("R-KEYED: %d typing rules and %d checked clause lists found (15 / 2 expected at least)" % (n, n_ord))
+    return res
